@@ -27,7 +27,7 @@ ASSUMPTIONS = [
 ]
 MINIMUM = {"distinct": 5000, "prefixes": 500, "audit_armed_loads": 5000}
 
-NDUMPS = {"quick": 40, "thorough": 400}
+NDUMPS = {"quick": 40, "thorough": 1800}
 NSH = {"quick": 16, "thorough": 32}
 SHARD_TIMEOUT = {"quick": 150, "thorough": 2400}
 
